@@ -1171,7 +1171,7 @@ fn main() {
         adv1.extend([999u64, 1001, 4999, 5001, 6999, 7001, 9500, 10001, 19999, 20001, 30001, 60001, 1_000_000_000, 1_000_001_000, 2_000_001_000]);
     }
     adv1.sort();
-    let adv2: Vec<u64> = if quick { vec![0, 5000, 10000, 11000] } else { vec![0, 1000, 5000, 5500, 10000, 11000] };
+    let adv2: Vec<u64> = if quick { vec![0, 5000, 10000, 11000] } else { vec![0, 5000, 5500, 10000, 11000] };
     // first probe of fill·probe·probe
     let adv2a: Vec<u64> = if quick { vec![0, 5000, 11000] } else { adv2.clone() };
     // b.ex/A is the mirror image of a.ex/A: the quick tier leaves it out of the three-step shape
@@ -1247,7 +1247,7 @@ fn main() {
     let mut shape4_desc = json!(null);
     if !quick {
         // answers that differ in class, TTL structure, DNSSEC content, failure
-        let kinds4: [u8; 4] = [1, 18, 6, K_TRANSPORT];
+        let kinds4: [u8; 3] = [1, 18, K_TRANSPORT];
         let qs4: [u8; 2] = [0, 2];
         let adv_f2: [u64; 2] = [0, 5000];
         let adv_p: [u64; 3] = [0, 5000, 11000];
